@@ -301,6 +301,24 @@ Definition obj_roundtrip_hist (path : list N) (w : walk) (kind : N) (gone : list
       end
   end.
 
+(* re-staging: the tree w1 was staged and transferred, files were rewritten, the tree - now w2 - is
+   staged again into the same odb and checked out.  Staging in the model is cache-free: it hashes the
+   bytes that are there now; that a hash-state cache changes nothing is what the correspondence with
+   runs WITH a State checks (the cache's own soundness is C13's theorem). *)
+Definition restage_val (path : list N) (w1 w2 : walk) : val :=
+  match stage md5_hex path w1 with
+  | Err c => VL [VN 0; VN c]
+  | Ok sg1 =>
+      match stage_from md5_hex (sg_store sg1) path w2 with
+      | Err c => VL [VN 0; VN c]
+      | Ok sg =>
+          VL [VN 1; VB (sg_oid sg1); VB (sg_oid sg); VN (sg_nfiles sg); VN (sg_size sg);
+              enc_keyhash (sg_tree sg); enc_store (sg_store sg);
+              enc_res (fun f => VL [enc_fsmap f; enc_dirs (dirs_of f)])
+                      (checkout (sg_store sg) (sg_oid sg))]
+      end
+  end.
+
 (* checkout of a store from which some objects were removed (malformed stream) *)
 Definition checkout_without (path : list N) (w : walk) (gone : list (list N)) : val :=
   match stage md5_hex path w with
